@@ -179,7 +179,7 @@ func (p *Core) execRelay(op sim.Op) {
 		on, of, cli = ps.Src, ps.Dst, ps.SrcCli
 	}
 	h := op.M
-	if h < 2 || (h > of.Height && !ps.Local) {
+	if h < 3 || (h > of.Height && !ps.Local) { // proofs need state version >= 2
 		w.Noop()
 		return
 	}
@@ -282,7 +282,7 @@ func (p *Core) execCloseConfirm(op sim.Op) {
 	}
 	e := int(op.X & 1)
 	on, of := r.Chain[e], r.Chain[1-e]
-	if op.M < 2 || op.M > of.Height {
+	if op.M < 3 || op.M > of.Height {
 		p.w.Noop()
 		return
 	}
@@ -327,6 +327,20 @@ func (p *Core) execWriteAck(op sim.Op) {
 	for i := 0; i < reps; i++ {
 		cctx, write := ctx.CacheContext()
 		var err error
+		state := "acked"
+		switch {
+		case ps.RecvHeight == 0 && !ps.HasAck:
+			state = "unreceived"
+		case ps.AsyncOpen:
+			state = "open"
+		}
+		defer func(i int) {
+			res := "written"
+			if err != nil {
+				res = "refused"
+			}
+			p.w.Stats.NonTrivial(fmt.Sprintf("wack:v2=%v:%s:%s:rep%d", ps.V2, state, res, min64(int64(i), 2)))
+		}(i)
 		if ps.V2 {
 			ack := channeltypesv2.NewAcknowledgement([]byte(fmt.Sprintf("async-ack-%d-%d", ps.Tag, i)))
 			if op.S == "fail" {
@@ -393,7 +407,12 @@ func (p *Core) afterBlock(ci int, res []*sim.TxResult) {
 	pre := map[int64]PktState{}
 	for _, r := range res {
 		if ps := p.Pkts[r.Spec.Tag]; ps != nil {
-			pre[ps.Tag] = *ps
+			cp := *ps
+			if !ps.V2 && ps.SentAt > 0 {
+				cp.closedSrc = p.closed[chanKey(ps.Src.Idx, ps.P1.SourcePort, ps.P1.SourceChannel)]
+				cp.closedDst = p.closed[chanKey(ps.Dst.Idx, ps.P1.DestinationPort, ps.P1.DestinationChannel)]
+			}
+			pre[ps.Tag] = cp
 		}
 	}
 
